@@ -38,8 +38,17 @@ func clampForBT(r gen.Recipe, limit int) gen.Recipe {
 		// run-like or periodic data (a copy at ANY distance is periodic, a
 		// counter has period 256, a two-letter text has little entropy)
 		runlike := s.Kind == "zeros" || s.Kind == "run" || s.Kind == "copyback" || s.Kind == "counter" || (s.Kind == "text" && s.K <= 2)
+		// interleaved copies with short literal runs are highly repetitive
+		// (measured: 900 KB with runs of <= 3 literals take the BinaryTree
+		// matcher 170 s, with runs of <= 40 literals 1 s)
+		if s.Kind == "mix" && s.K > 0 && s.K < 40 {
+			runlike = true
+		}
 		if runlike && s.Len > limit {
 			s.Len = limit
+		}
+		if s.Kind == "mix" && s.Len > 300000 {
+			s.Len = 300000
 		}
 	}
 	return r
@@ -88,7 +97,14 @@ func drawXZCase(t *rapid.T) caseXZ {
 		txt := func() gen.Seg {
 			return gen.Seg{Kind: "text", K: 4, Len: rapid.IntRange(300, 30000).Draw(t, "txtlen"), Seed: rapid.Uint64().Draw(t, "txtseed")}
 		}
-		switch rapid.IntRange(0, 17).Draw(t, "shape") {
+		switch rapid.IntRange(0, 19).Draw(t, "shape") {
+		case 5, 6:
+			// hundreds of kilobytes of interleaved literal runs and copies: a dozen
+			// chunk limits, each met by whatever operation happens to be next
+			if c.Cfg.Matcher == 0 || rapid.IntRange(0, 3).Draw(t, "btmix") == 0 {
+				c.Data = gen.Recipe{{Kind: "mix", Len: rapid.IntRange(150000, 900000).Draw(t, "mixlen"), Seed: rapid.Uint64().Draw(t, "mixseed"),
+					K: rapid.SampledFrom([]int{3, 40, 200}).Draw(t, "mixk"), Dist: rapid.SampledFrom([]int{0, 4096, 65536}).Draw(t, "mixdist")}}
+			}
 		case 4:
 			// a chunk closed by the 64 KiB compressed limit (bytes left pending in
 			// the look-ahead) and then more than 2 MiB of highly compressible data,
@@ -125,6 +141,12 @@ func drawXZCase(t *rapid.T) caseXZ {
 	if c.Cfg.EffDict() <= 1<<20 && rapid.IntRange(0, 19).Draw(t, "edge") == 0 {
 		// the only repeat lies at distance DictCap-3..DictCap+3
 		c.Data = gen.EdgeRecipe(t, c.Cfg.EffDict())
+		if c.Cfg.BlockSize != 0 && c.Cfg.BlockSize < int64(c.Data.Len()) {
+			c.Cfg.BlockSize = 0
+		}
+	}
+	if c.Cfg.Matcher == 0 && c.Cfg.EffDict() >= 65536 && rapid.IntRange(0, 24).Draw(t, "repchain") == 0 {
+		c.Data = gen.RepChainRecipe(t)
 		if c.Cfg.BlockSize != 0 && c.Cfg.BlockSize < int64(c.Data.Len()) {
 			c.Cfg.BlockSize = 0
 		}
